@@ -110,7 +110,10 @@ def model_strategy(draw, p):
     m = {"kind": kind, "t": t, "q": q, "beta": mat(q), "u_misc": mat(k), "u_a": mat(p),
          "u_d": mat(p) if kind == "dominance" else None,
          "u_d_none": draw(st.booleans()) if kind == "dominance" else False,
-         "trait": draw(st.sampled_from([None, "names"]))}
+         "trait": draw(st.sampled_from([None, "names"])),
+         # the effects may reach the model through its public setters after the object has already been used with other
+         # effects (a re-trained / edited model is still "a linear genomic model with these effects")
+         "via_setters": draw(st.sampled_from([False, False, True]))}
     if m["u_d_none"]:
         m["u_d"] = [[0.0] * t for _ in range(p)]
     zero_trait = draw(st.sampled_from([None] * 7 + [0]))
@@ -181,11 +184,32 @@ def make_model(m, rows=None, zero_beta=False):
         ud = None           # documented default: dominance effects of zero
     umisc = farr(m["u_misc"], t) if len(m["u_misc"]) else None
     trait = None if m["trait"] is None else numpy.array(["trait%d" % i for i in range(t)], dtype=object)
-    if m["kind"] == "additive":
-        return DenseAdditiveLinearGenomicModel(beta=beta, u_misc=umisc, u_a=ua, trait=trait)
-    if m["kind"] == "rrblup":
-        return rrBLUPModel0(beta=beta, u_misc=umisc, u_a=ua, trait=trait, method="ML")
-    return DenseAdditiveDominanceLinearGenomicModel(beta=beta, u_misc=umisc, u_a=ua, u_d=ud, trait=trait)
+    def build(beta, umisc, ua, ud):
+        if m["kind"] == "additive":
+            return DenseAdditiveLinearGenomicModel(beta=beta, u_misc=umisc, u_a=ua, trait=trait)
+        if m["kind"] == "rrblup":
+            return rrBLUPModel0(beta=beta, u_misc=umisc, u_a=ua, trait=trait, method="ML")
+        return DenseAdditiveDominanceLinearGenomicModel(beta=beta, u_misc=umisc, u_a=ua, u_d=ud, trait=trait)
+
+    if not m.get("via_setters"):
+        return build(beta, umisc, ua, ud)
+    # decoy effects first, use the object once (so that anything it caches is populated), then assign the real effects
+    mod = build(beta + 1.0, None if umisc is None else umisc - 2.0, ua * -3.0 + 1.0, None if ud is None else ud + 0.5)
+    nfix, nmisc, nmk = beta.shape[0], (0 if umisc is None else umisc.shape[0]), ua.shape[0]
+    X0 = numpy.ones((2, nfix))
+    Z0 = numpy.ones((2, nmisc + nmk + (nmk if (m["kind"] == "dominance") else 0)))
+    try:
+        mod.predict_numpy(X0, Z0)
+        mod.gebv_numpy(numpy.ones((2, nmk), dtype="int8"))
+    except Exception:
+        pass
+    mod.beta = beta
+    if umisc is not None:
+        mod.u_misc = umisc
+    mod.u_a = ua
+    if ud is not None and m["kind"] == "dominance":
+        mod.u_d = ud
+    return mod
 
 
 def labels_for(case, n):
@@ -298,6 +322,7 @@ def check_values(case, ctx):
     nonzero_effect = any(v != 0.0 for row in m["u_a"] for v in row)
     ctx.nontrivial(distinct_rows >= 2 and nonzero_effect)
     ctx.label(m["kind"])
+    ctx.label("effects_assigned_through_setters", bool(m.get("via_setters")))
     ctx.label("ploidy%d" % pl)
     ctx.label("traits%d" % t)
     ctx.label("q_gt_1", q > 1)
